@@ -1,5 +1,6 @@
 import RexModel.Driver.C17
 import RexModel.Driver.Async
+import RexModel.Driver.Sched
 import RexModel.Driver.C18
 import RexModel.Driver.C15
 import RexModel.Driver.C11
@@ -11,5 +12,5 @@ import RexModel.Driver.C16
 namespace Rex.Driver
 def allHandlers : List (String × Handler) :=
   [("ping", fun _ => pure (Lean.Json.mkObj [("pong", Lean.Json.bool true)]))] ++
-  C17.handlers ++ Async.handlers ++ C18.handlers ++ C15.handlers ++ C11.handlers ++ C19.handlers ++ C20.handlers ++ C14.handlers ++ C16.handlers
+  C17.handlers ++ Async.handlers ++ Sched.handlers ++ C18.handlers ++ C15.handlers ++ C11.handlers ++ C19.handlers ++ C20.handlers ++ C14.handlers ++ C16.handlers
 end Rex.Driver
